@@ -349,6 +349,10 @@ func ParamScenarios() []History {
 		{Name: "Respond", Signer: "p3", Rid: rid(1, 1, 1, 2), Kind: "bad"}, // p3: price 0, half of 1 is 0: still available
 		eb(1), eb(1), // p1 and p2 time out: half their deposits, below the price-based minimum: disabled
 		{Name: "Obs"},
+		eb(6),
+		{Name: "RefundDeposit", Signer: "o1", Svc: "s1", Prov: "p1"}, // the deposit goes, the price (6: a minimum of 60) stays
+		{Name: "Enable", Signer: "o1", Svc: "s1", Prov: "p1", Deposit: 59, DShape: "ok"},
+		{Name: "Enable", Signer: "o1", Svc: "s1", Prov: "p1", Deposit: 60, DShape: "ok"},
 		{Name: "PrepZeroHeight"},
 		{Name: "Genesis"},
 	}
